@@ -107,7 +107,7 @@ def _emit_fn(gen, root, fn, canary_false=False):
     end = len(gen.lines)
     gen.fns[key] = dict(file=fn.file, scope=fn.scope, name=fn.name, repo_line=d['line'], gen_start=start, gen_end=end,
                         sha_repo=X.sha(d['sig'] + d['body']), sha_emitted=X.sha('\n'.join(gen.lines[start - 1:end])),
-                        rules=fired, props=fn.props, canary=(fn.canary and canary_false), external_body=fn.external_body,
+                        rules=fired, props=fn.props, canary=(fn.canary and canary_false), external_body=fn.external_body, gtag_props=fn.gtag_props,
                         n_requires=len(fn.requires), n_ensures=len(fn.ensures))
 
 
@@ -415,8 +415,9 @@ def _describe_failure(gen, unit, d):
         p = t.split('.')[0]
         if p not in props:
             props.append(p)
+    over = gen.fns[fn_key].get('gtag_props', {}) if fn_key in gen.fns else {}
     for g in gtags:
-        for p in unit.generic_tags.get(g, []):
+        for p in over.get(g, unit.generic_tags.get(g, [])):
             if p not in props:
                 props.append(p)
     if not props and fn_key in gen.fns:
